@@ -72,6 +72,8 @@ def variants(rng, profile, n):
 
 
 def make_spec(st, idx, tier):
+    if idx % 6 == 5:
+        return make_historical_spec(st, idx, tier)
     big = idx % 6 == 5
     wk = dict(WORLD, n_states=(1, 2), n_counties=(8, 14), n_units=(14, 28), max_units=600, offices=["G", "S"]) if big else WORLD
     for _ in range(20):
@@ -172,6 +174,95 @@ class Checker(C.BaseChecker):
 
 def checker(spec):
     return Checker(spec)
+
+
+# ------------------------------------------------------------------ historical evaluations
+
+
+def make_historical_spec(st, idx, tier):
+    from checks import c10 as H
+
+    spec = H.make_historical_spec(st, idx, tier)
+    rng = st.shadow
+    spec["kind"] = "historical_request"
+    all_e = ["dem", "gop", "turnout"]
+    perm = [all_e[int(i)] for i in rng.permutation(3)]
+    spec["profile"]["estimands"] = perm[: int(rng.integers(2, 4))]
+    spec["profile"]["aggregates"] = ["postal_code", "county_fips"] + (["unit"] if chance(rng, 0.7) else [])
+    spec["profile"]["prediction_intervals"] = [0.7, 0.9] if chance(rng, 0.5) else [0.8]
+    return spec
+
+
+def run_historical(spec, stats):
+    """The same historical evaluation with the full estimand list and with each estimand alone: what is reported for an
+    estimand is the same either way, and the counted votes of reporting units are that estimand's own stored results."""
+    from checks import c10 as H
+    from nightsim.framework import Violation
+
+    world, p = spec["world"], spec["profile"]
+    o_full, t_full = H.historical_evaluation(spec, spec["hist"])
+    stats.polls += 1
+    stats.evaluations += 1
+    out = []
+    if o_full != "ok":
+        stats.repo_errors[o_full.split(":")[0]] += 1
+        stats.state(("historical_failed", p["pi_method"]), False)
+        return out, "hist"
+    stats.polls_ok += 1
+    hist = {r["geographic_unit_fips"]: r for r in spec["hist"]}
+    live = {r["geographic_unit_fips"]: r for r in spec["live"]}
+    ud = t_full.get("unit_data")
+    if ud is not None:
+        for r in ud.to_dict("records"):
+            f = r["geographic_unit_fips"]
+            if f in hist and f in live and live[f]["percent_expected_vote"] >= p["threshold"]:
+                for e in p["estimands"]:
+                    if C.fnum(r[f"results_{e}"]) != float(hist[f][f"results_{e}"]):
+                        out.append(Violation(PROP, "historical_counts_of_another_estimand", f"unit {f}: results_{e}={r[f'results_{e}']} in the evaluation of {p['estimands']}, "
+                                                                                           f"the stored historical result is {hist[f][f'results_{e}']}", dict(estimator=p["pi_method"], n_estimands=len(p["estimands"]))))
+                        break
+                if out:
+                    break
+    shared = 0
+    for e in p["estimands"]:
+        o1, t1 = H.historical_evaluation(spec, spec["hist"], dict(p, estimands=[e]))
+        stats.polls += 1
+        if o1 != "ok":
+            out.append(Violation(PROP, "variant_failed", f"historical evaluation of {p['estimands']} produced estimates, of [{e!r}] alone failed: {o1}", dict(estimator=p["pi_method"], varied=["estimands"])))
+            continue
+        stats.polls_ok += 1
+        for name in sorted(set(t_full) & set(t1)):
+            A, B = t_full[name], t1[name]
+            keys = C.table_keys(world, name)
+            if any(k not in A.columns or k not in B.columns for k in keys):
+                continue
+            ia, ib = C.index_rows(A, keys), C.index_rows(B, keys)
+            if set(ia) != set(ib):
+                out.append(Violation(PROP, "row_set_depends_on_request", f"{name}: rows differ between the historical evaluations of {p['estimands']} and [{e!r}]", dict(estimator=p["pi_method"], varied=["estimands"])))
+                continue
+            cols = [c for c in A.columns if c in B.columns and c not in keys]
+            shared += len(cols)
+            for k in sorted(ia, key=str):
+                d = C.diff_rows(ia[k], ib[k], cols)
+                if d:
+                    out.append(Violation(PROP, "depends_on_request", f"historical evaluation, {name}{k}: {d[:3]} = {ia[k][d[0]]} with estimands {p['estimands']} but {ib[k][d[0]]} with [{e!r}] alone",
+                                         dict(estimator=p["pi_method"], varied=["estimands"], column=d[0].split("_")[0])))
+                    break
+    stats.probes["historical_evaluation_full_vs_single_estimand"] += 1
+    stats.state(("historical", p["pi_method"], len(p["estimands"]), tuple(p["aggregates"]), bool(p["features"])), shared > 0)
+    stats.sample = dict(kind="historical_request", night_seed=spec.get("night_seed"), units=len(world["baseline"]), profile={k: p[k] for k in ("pi_method", "estimands", "aggregates", "prediction_intervals", "threshold")})
+    return out, "hist"
+
+
+def run_custom(spec, stats):
+    from nightsim.framework import NightExec
+
+    if spec.get("kind") == "historical_request":
+        return run_historical(spec, stats)
+    ex = NightExec(spec, Checker(spec), stats)
+    vs = ex.run()
+    summarise(ex, stats)
+    return vs, ex.digest()
 
 
 def summarise(ex, stats):
